@@ -44,7 +44,7 @@ func TestSim(t *testing.T) {
 
 func run(r *core.R) {
 	r.FaultDecl("conflict", "error_before", "commit_then_error", "k8s_api_error", "clock_jump", "informer_stall", "feed_stall",
-		"feed_reorder_across_keys", "feed_coalesced", "feed_duplicate", "feed_resync", "cni_del_lost")
+		"feed_reorder_across_kinds", "feed_coalesced", "feed_duplicate", "feed_resync", "cni_del_lost")
 	r.ProbeDecl("gc_release_ips_call", "gc_released_allocation", "gc_release_block_affinity_call", "gc_release_host_affinities_call",
 		"gc_cold_ip_gc_call", "gc_live_pod_lookup", "gc_release_names_no_current_allocation", "gc_block_release_is_noop", "gc_host_release_is_noop",
 		"release_after_grace", "release_immediate_node_gone", "release_tunnel_address", "tunnel_address_allocated",
@@ -111,7 +111,7 @@ func run(r *core.R) {
 	w.feed.sa = w.s.NewActor("feed")
 	w.feed.wk = newWaiter()
 	w.nd.sa = w.s.NewActor("nodedel")
-	w.dir = &director{w: w, sa: w.s.NewActor("director"), events: src.Range(6, 40, "events")}
+	w.dir = &director{w: w, sa: w.s.NewActor("director"), events: src.Range(6, map[bool]int{false: 40, true: 60}[r.Tier == "thorough"], "events")}
 	r.Cfg("events", w.dir.events)
 	if src.Chance(300, "foreign_alloc") {
 		w.nodes[0].kl.enqueue(&task{kind: tForeign})
